@@ -677,39 +677,105 @@ def _validated_as_mapping(corpus: Corpus, fi: FunctionInfo, cfg, var: str, use: 
                     rebound = True
         if rebound:
             continue
-        # which fields reach the use?  (a test on the field's metadata selects them)
+        # which fields reach the use?  (a test on the field's metadata, or on the option name, selects them)
         ftext = unparse(c.args[1])
+        key_var = None
+        for lp in fi.local_nodes():
+            if isinstance(lp, ast.For) and isinstance(lp.target, ast.Tuple) and len(lp.target.elts) == 2:
+                a0, a1 = lp.target.elts
+                if isinstance(a1, ast.Name) and a1.id == var and isinstance(a0, ast.Name):
+                    key_var = a0.id
         flag = None
+        names: set[str] | None = None
         unknown_selector = None
+        before = {(unparse(t), p_) for t, p_ in cfg.guards(V)}
         for test, pol in cfg.guards(U):
             txt = unparse(test)
+            if (txt, pol) in before:
+                continue  # held already when the validation ran: not a condition between validation and use
+            if isinstance(test, ast.Call) and dotted(test.func) == "isinstance":
+                continue
+            test = _single_def(fi, test)
             sel = None
             if isinstance(test, ast.Call) and unparse(test.func) == f"{ftext}.metadata.get" and test.args and isinstance(test.args[0], ast.Constant):
-                sel = test.args[0].value
+                if len(test.args) == 1 or (isinstance(test.args[1], ast.Constant) and not test.args[1].value):
+                    sel = test.args[0].value
             elif isinstance(test, ast.Subscript) and unparse(test.value) == f"{ftext}.metadata" and isinstance(test.slice, ast.Constant):
                 sel = test.slice.value
-            if sel is not None and pol and (not isinstance(test, ast.Call) or len(test.args) == 1 or (isinstance(test.args[1], ast.Constant) and not test.args[1].value)):
+            if sel is not None and pol:
                 flag = sel
-            elif ftext in {n.id for n in ast.walk(test) if isinstance(n, ast.Name)} or any(isinstance(n, ast.Name) and n.id == var for n in ast.walk(test)):
-                if not (isinstance(test, ast.Call) and dotted(test.func) == "isinstance"):
-                    unknown_selector = txt
+                continue
+            if key_var and isinstance(test, ast.Compare) and len(test.ops) == 1 and isinstance(test.left, ast.Name) and test.left.id == key_var:
+                r = test.comparators[0]
+                consts = None
+                if isinstance(r, ast.Constant) and isinstance(r.value, str):
+                    consts = {r.value}
+                elif isinstance(r, (ast.Tuple, ast.List, ast.Set)) and all(isinstance(x, ast.Constant) and isinstance(x.value, str) for x in r.elts):
+                    consts = {x.value for x in r.elts}
+                if consts is not None and ((isinstance(test.ops[0], (ast.Eq, ast.In)) and pol) or (isinstance(test.ops[0], (ast.NotEq, ast.NotIn)) and not pol)):
+                    names = consts if names is None else names & consts
+                    continue
+            unknown_selector = txt
         fields = _config_fields(corpus)
+        chosen = dict(fields)
+        which = []
         if flag is not None:
-            chosen = {
-                f: m for f, m in fields.items() if flag in m and not (isinstance(m[flag], ast.Constant) and not m[flag].value)
-            }
-            if not chosen:
-                return ("error", f"no MdParserConfig field carries metadata[{flag!r}]")
-        elif unknown_selector is not None:
-            return ("error", f"the use is reached under `{unknown_selector}`, which is not a recognised test on the field's metadata")
-        else:
-            chosen = fields
+            chosen = {f: m for f, m in chosen.items() if flag in m and not (isinstance(m[flag], ast.Constant) and not m[flag].value)}
+            which.append(f"fields with metadata[{flag!r}]")
+        if names is not None:
+            chosen = {f: m for f, m in chosen.items() if f in names}
+            which.append(f"fields named {sorted(names)}")
+        if which and not chosen:
+            return ("error", f"no MdParserConfig field is selected by {' and '.join(which)}")
+        if not which and unknown_selector is not None:
+            return ("error", f"the use is reached under `{unknown_selector}`, which is not a recognised selection of config fields (metadata flag or option name)")
+        which = " and ".join(which) or "all fields (the use is unconditional after the validation)"
         bad = [f for f, m in chosen.items() if "validator" not in m or not _validator_is_mapping(m["validator"])]
-        which = f"fields with metadata[{flag!r}]" if flag is not None else "all fields"
         if bad:
             return ("violation", f"validated by validate_field, but the validator of `{bad[0]}` ({which}) admits values that are not mappings")
         return ("ok", f"after validate_field succeeded; {which} ({', '.join(sorted(chosen))}) are validated as mappings")
     return ("no", "")
+
+
+def _single_def(fi: FunctionInfo, e: ast.expr) -> ast.expr:
+    """A local that is bound exactly once stands for the expression it was bound to (one level)."""
+    if not isinstance(e, ast.Name):
+        return e
+    defs = []
+    for n in fi.local_nodes():
+        if isinstance(n, ast.Name) and n.id == e.id and isinstance(n.ctx, ast.Store):
+            defs.append(parent(n))
+    if len(defs) == 1 and isinstance(defs[0], ast.Assign) and len(defs[0].targets) == 1 and defs[0].targets[0] is not None and isinstance(defs[0].targets[0], ast.Name):
+        return defs[0].value
+    return e
+
+
+_USE_ERRORS = ("TypeError", "AttributeError", "KeyError", "IndexError")
+
+
+def _inside_broad_try(use: ast.AST, mapping_use: bool) -> bool:
+    """The use sits in a ``try`` body whose handler catches whatever a wrongly-typed value raises there."""
+    node = use
+    for a in ancestors(use):
+        if isinstance(a, (ast.FunctionDef, ast.Lambda)):
+            break
+        if isinstance(a, ast.Try) and any(node is s for s in a.body):
+            for h in a.handlers:
+                elts = [None] if h.type is None else (h.type.elts if isinstance(h.type, ast.Tuple) else [h.type])
+                names = {"BaseException" if t is None else (dotted(t) or "").split(".")[-1] for t in elts}
+                if names & {"Exception", "BaseException"}:
+                    return True
+                if mapping_use and "TypeError" in names:
+                    return True  # `**x` / `{**x}` of a non-mapping raises TypeError only
+        if isinstance(a, ast.With) and any(node is s for s in a.body):
+            for it in a.items:
+                ce = it.context_expr
+                if isinstance(ce, ast.Call) and (dotted(ce.func) or "").split(".")[-1] == "suppress":
+                    names = {(dotted(t) or "").split(".")[-1] for t in ce.args}
+                    if names & {"Exception", "BaseException"} or (mapping_use and "TypeError" in names):
+                        return True
+        node = a
+    return False
 
 
 def _check_narrowed(corpus: Corpus, fi: FunctionInfo, var: str, assign: ast.AST, scope: ast.AST, rep: Report) -> None:
@@ -755,6 +821,9 @@ def _check_narrowed(corpus: Corpus, fi: FunctionInfo, var: str, assign: ast.AST,
             how.add(f"isinstance({var}, ...)")
             continue
         is_mapping_use = isinstance(u, ast.Dict) or isinstance(parent(u), ast.keyword)
+        if _inside_broad_try(u, is_mapping_use):
+            how.add("a try/except that catches the TypeError/AttributeError of a wrongly-typed value")
+            continue
         verdict, text = _validated_as_mapping(corpus, fi, cfg, var, u) if is_mapping_use else ("no", "")
         if verdict == "ok":
             how.add(text)
